@@ -37,11 +37,11 @@ SCHEME_ORDERS = ["stpd", "sptd", "tspd", "tpsd", "pstd", "ptsd", "stdp", "spdt",
 TIERS = {
     # lives, random models, option sets per model, max models per life, large shipped models
     "quick": dict(lives=128, n_random=28, n_mut=2, optsets=3, per_life=(2, 4), large=False,
-                  p_rl=0.35, budget=600, ddmin_trials=600),
+                  p_rl=0.35, budget=600, ddmin_trials=240, max_min_classes=3),
     "thorough": dict(lives=1500, n_random=320, n_mut=12, optsets=4, per_life=(2, 5), large=True,
-                     p_rl=0.35, budget=1800, ddmin_trials=1200),
+                     p_rl=0.35, budget=1800, ddmin_trials=900, max_min_classes=8),
     "smoke": dict(lives=12, n_random=4, n_mut=1, optsets=2, per_life=(2, 3), large=False,
-                  p_rl=0.3, budget=600, ddmin_trials=400),
+                  p_rl=0.3, budget=600, ddmin_trials=160, max_min_classes=2),
 }
 
 
@@ -60,6 +60,18 @@ def build_pool(rng: random.Random, cfg: dict) -> list:
                      "large": False})
     for i in range(cfg["n_random"]):
         pool.append({"src": "random", "text": modelgen.gen_model(rng), "large": False})
+    # edited siblings: same identifiers and dependency sets, some formulas changed.  Lives
+    # load a model and its sibling under the same name, in either order (a user edits an
+    # equation and reloads) - the bait for anything cached across models.
+    base = [p for p in pool if not p["large"]]
+    n_sib = cfg.get("n_sibling", max(2, len(base) // 3))
+    for i in range(n_sib):
+        b = base[(i * 3) % len(base)]
+        t2 = modelgen.edit_formulas(rng, b["text"], rng.randrange(1, 4))
+        if t2 != b["text"]:
+            sib = {"src": "sibling:" + b["src"], "text": t2, "large": False, "sibling_of": b}
+            pool.append(sib)
+            b.setdefault("siblings", []).append(sib)
     for i, p in enumerate(pool):
         p["id"] = "m%d" % i
         p["sha"] = obs.sha(p["text"])[:16]
@@ -91,6 +103,8 @@ def draw_optset(rng: random.Random, cfg: dict, large: bool) -> dict:
         o["stiff"] = [rng.randrange(0, 12) for _ in range(rng.randrange(0, 4))] + ([-1] if rng.random() < 0.2 else [])
     if backend != "c" and not large and rng.random() < 0.2:
         o["format"] = "black"
+    if backend == "c" and rng.random() < 0.3:
+        o["format"] = "clang-format"  # the real clang-format that ships in /venv/bin (on the lives' PATH)
     if backend != "c" and rng.random() < 0.2:
         o["shape"] = rng.choice(["single", "multiple"])
     if backend != "c" and rng.random() < 0.15:
@@ -183,6 +197,14 @@ def build_life(rng: random.Random, k: int, pool: list, cfg: dict, phase: int, ar
     larges = [p for p in pool if p["large"]]
     n_models = rng.randrange(lo, hi + 1)
     models = rng.sample(candidates, min(n_models, len(candidates)))
+    # a model and its edited sibling in the same life, in either order
+    for m in list(models):
+        fam = m.get("siblings") or ([m["sibling_of"]] if m.get("sibling_of") else [])
+        if fam and rng.random() < 0.6:
+            other = rng.choice(fam)
+            if other not in models:
+                k_ins = models.index(m) + rng.choice([0, 1])
+                models.insert(k_ins, other)
     if larges and rng.random() < 0.06:
         models = [rng.choice(larges)] + models[:1]
     seqs = []
@@ -770,11 +792,11 @@ def main(tier: str, workers: int = 16) -> int:
             seen_kinds.add(ck[0])
             order.append(ck)
     order += [ck for ck in sorted(classes) if ck not in order]
-    for ck in order:
+    for n_ck, ck in enumerate(order):
         v = classes[ck][0]
         mini.new_class()
         try:
-            doc = attribute_and_minimise(v, plans_by_life, mini) if not mini.exhausted() else {
+            doc = attribute_and_minimise(v, plans_by_life, mini) if (not mini.exhausted() and n_ck < cfg.get("max_min_classes", 3)) else {
                 "property": "C09", "key": v["key"], "op_kind": v["op_kind"], "model": v["model"], "kind": "unminimised",
                 "lives": [dict(plans_by_life[w["life"]]) for w in v["witnesses"]]}
         except core.HarnessError as e:
